@@ -6,6 +6,7 @@
 import PygModel.Fill
 import PygProofs.Lemmas.FillLemmas
 import PygProofs.Lemmas.FillIndep
+import PygProofs.Lemmas.FillRows
 
 namespace Pyg.Props.C12
 open Pyg Pyg.Fill
@@ -213,6 +214,97 @@ theorem fillna_wellformed (ms : List Method) (lim : Option Nat) (f g : Frame) (h
   rw [h] at this
   exact ⟨this.sf, this.rf⟩
 
+/-! ### method LISTS never change a non-NaN cell -/
+
+/-- a list of FILLING methods (no 'nona' / 'fnna'): the index and the columns stay and every non-NaN cell of the input
+is still there, at the same place, after the whole list -/
+theorem fillna_keeps (ms : List Method) (lim : Option Nat) (f g : Frame) (hms : ∀ m ∈ ms, m ≠ .fnna ∧ m ≠ .nona)
+    (hs : f.Sorted) (hr : f.Rect) (h : fillna ms lim f = .ok g) :
+    g.idx = f.idx ∧ g.names = f.names ∧ ∀ j i v, cell f j i = some (some v) → cell g j i = some (some v) := by
+  induction ms generalizing f with
+  | nil => simp [fillna, List.foldlM, pure, Except.pure] at h; subst h; exact ⟨rfl, rfl, fun _ _ _ h => h⟩
+  | cons m ms ih =>
+    rw [seq_cons] at h
+    cases h1 : step lim f m with
+    | error e => rw [h1] at h; cases h
+    | ok f1 =>
+      rw [h1] at h
+      have hw := fillna_wellformed [m] lim f f1 hs hr (by rw [fillna_single]; exact h1)
+      obtain ⟨a1, a2, a3⟩ := fill_keeps_values lim m f f1 (hms m (by simp)) hs hr h1
+      obtain ⟨b1, b2, b3⟩ := ih f1 (fun m' hm' => hms m' (by simp [hm'])) hw.1 hw.2 h
+      exact ⟨b1.trans a1, b2.trans a2, fun j i v hv => b3 j i v (a3 j i v hv)⟩
+
+theorem row_cell (f : Frame) (i j : Nat) (v : Int) (hi : i < f.nrows) (hr : f.Rect) :
+    (f.row i).2[j]? = some (some v) ↔ cell f j i = some (some v) := by
+  simp only [Frame.row, cell, List.getElem?_map]
+  cases hc : f.cols[j]? with
+  | none => simp
+  | some c =>
+    have hl : i < c.2.length := by rw [hr c (List.mem_of_getElem? hc)]; exact hi
+    simp [List.getD_eq_getElem?_getD, List.getElem?_eq_getElem hl]
+
+/-- ONE step of any method: rows are only removed (never added, reordered or relabelled), the columns stay, and every
+row of the result is a row of the input with all its non-NaN cells intact -/
+theorem step_rows_kept (lim : Option Nat) (m : Method) (f g : Frame) (hs : f.Sorted) (hr : f.Rect)
+    (h : step lim f m = .ok g) :
+    g.idx.Sublist f.idx ∧ g.names = f.names ∧ ∀ r ∈ g.rows, ∃ r0 ∈ f.rows, RowKept r0 r := by
+  by_cases hm : m ≠ .fnna ∧ m ≠ .nona
+  · obtain ⟨a1, a2, a3⟩ := fill_keeps_values lim m f g hm hs hr h
+    have hw := fillna_wellformed [m] lim f g hs hr (by rw [fillna_single]; exact h)
+    refine ⟨by rw [a1]; exact List.Sublist.refl _, a2, ?_⟩
+    intro r hrr
+    obtain ⟨i, hi, rfl⟩ := List.mem_map.mp hrr
+    have hi' : i < f.nrows := by simpa [Frame.nrows, a1] using hi
+    refine ⟨f.row i, List.mem_map.mpr ⟨i, by simpa using hi', rfl⟩, ?_, ?_, ?_⟩
+    · simp [Frame.row, a1]
+    · have := congrArg List.length a2; simpa [Frame.row, Frame.names] using this
+    · intro j v hv
+      rw [row_cell f i j v hi' hr] at hv
+      rw [row_cell g i j v (by simpa [Frame.nrows, a1] using hi') hw.2]
+      exact a3 j i v hv
+  · have key : ∀ pos, pos.Sublist (List.range f.nrows) → g = f.gather pos →
+        g.idx.Sublist f.idx ∧ g.names = f.names ∧ ∀ r ∈ g.rows, ∃ r0 ∈ f.rows, RowKept r0 r := by
+      intro pos hp e; subst e
+      obtain ⟨k1, k2⟩ := gather_rows_kept f pos hp
+      exact ⟨k1, Frame.names_gather _ _, fun r hr' => ⟨r, k2 r hr', RowKept.refl r⟩⟩
+    cases m with
+    | fnna =>
+      simp only [step] at h
+      split at h
+      · cases h; exact key _ List.filter_sublist rfl
+      · cases h; exact key [] (List.nil_sublist _) rfl
+    | nona => simp only [step] at h; cases h; exact key _ List.filter_sublist rfl
+    | const c => exact (hm ⟨by simp, by simp⟩).elim
+    | ffill => exact (hm ⟨by simp, by simp⟩).elim
+    | bfill => exact (hm ⟨by simp, by simp⟩).elim
+    | ffillNa => exact (hm ⟨by simp, by simp⟩).elim
+    | ffill0 => exact (hm ⟨by simp, by simp⟩).elim
+
+/-- ANY method list (removing methods included): "df_fillna never changes a non-NaN cell", tracked by row.  The
+timestamps of the result are a sub-sequence of the input's, the columns stay, and every row of the result is the row of
+the input with that timestamp (unique: the index is strictly increasing) with all its non-NaN cells intact. -/
+theorem fillna_rows_kept (ms : List Method) (lim : Option Nat) (f g : Frame) (hs : f.Sorted) (hr : f.Rect)
+    (h : fillna ms lim f = .ok g) :
+    g.idx.Sublist f.idx ∧ g.names = f.names ∧ ∀ r ∈ g.rows, ∃ r0 ∈ f.rows, RowKept r0 r := by
+  induction ms generalizing f with
+  | nil =>
+    simp [fillna, List.foldlM, pure, Except.pure] at h; subst h
+    exact ⟨List.Sublist.refl _, rfl, fun r hr' => ⟨r, hr', RowKept.refl r⟩⟩
+  | cons m ms ih =>
+    rw [seq_cons] at h
+    cases h1 : step lim f m with
+    | error e => rw [h1] at h; cases h
+    | ok f1 =>
+      rw [h1] at h
+      have hw := fillna_wellformed [m] lim f f1 hs hr (by rw [fillna_single]; exact h1)
+      obtain ⟨a1, a2, a3⟩ := step_rows_kept lim m f f1 hs hr h1
+      obtain ⟨b1, b2, b3⟩ := ih f1 hw.1 hw.2 h
+      refine ⟨b1.trans a1, b2.trans a2, ?_⟩
+      intro r hr'
+      obtain ⟨r1, hr1, k1⟩ := b3 r hr'
+      obtain ⟨r0, hr0, k0⟩ := a3 r1 hr1
+      exact ⟨r0, hr0, k0.trans k1⟩
+
 /-! ### arrays -/
 
 /-- Given a numpy array (the column values alone) the result equals the values of the result for ANY
@@ -232,6 +324,14 @@ theorem array_agrees (ms : List Method) (lim : Option Nat) (f : Frame) (hs : f.S
     · exact h.elim
     · show Except.ok _ = Except.ok _
       rw [(show Same _ _ from h).vals]
+
+/-- the same for the function `nona` (arrays ignore `edge`): the array result is the values of the pandas result -/
+theorem nona_array_agrees (f g : Frame) (hs : f.Sorted) (hr : f.Rect) (hne : f.cols ≠ [])
+    (h : nona Option.none f = .ok g) : nonaArr f.vals = g.vals := by
+  have hsame := same_ofArr f hs hr hne
+  simp only [nona] at h; cases h
+  unfold nonaArr
+  rw [hsame.rowValid.symm, hsame.nrows.symm, vals_gather, vals_gather, vals_ofArr]
 
 /-! ### non-vacuity and evaluation checks -/
 
@@ -256,6 +356,13 @@ example : let f : Frame := { idx := [1, 2, 3, 4], cols := [("a", [Option.none, s
     f.Sorted ∧ f.Rect ∧
     (step Option.none f .nona).toOption.map (·.idx) = some [2, 4] ∧
     (step Option.none f .fnna).toOption.map (·.idx) = some [2, 3, 4] := by decide
+
+/-- `fillna_rows_kept` / `fillna_keeps` on a list that fills and removes -/
+example : let f : Frame := { idx := [1, 2, 3, 4], cols := [("a", [Option.none, some 1, Option.none, some 2]),
+                                                           ("b", [Option.none, Option.none, Option.none, some 5])] }
+    f.Sorted ∧ f.Rect ∧
+    (fillna [.fnna, .ffill, .const 7] (some 1) f).toOption =
+      some { idx := [2, 3, 4], cols := [("a", [some 1, some 1, some 2]), ("b", [some 7, Option.none, some 5])] } := by decide
 
 /-- `array_agrees` on a frame with gaps in its index and a method list that drops and fills -/
 example : let f : Frame := { idx := [3, 5, 9, 10], cols := [("a", [Option.none, some 1, Option.none, Option.none])] }
